@@ -6,7 +6,7 @@ edges_to_behaviours()  rebuild shortest prefixes from per-edge emission
 replay()          run behaviours through the harness in parallel
 compare()         predicted vs observed, step by step
 """
-import os, sys, re, json, subprocess, time, hashlib, shutil, glob, collections
+import threading, os, sys, re, json, subprocess, time, hashlib, shutil, glob, collections
 from concurrent.futures import ThreadPoolExecutor
 
 VERIF = os.path.dirname(os.path.dirname(os.path.abspath(__file__)))
@@ -93,12 +93,20 @@ def build_harness(name="default", defines=(), harness="vh.c", san=True, cov=Fals
 TLC_CP = "/opt/veriftools/tla/tla2tools.jar:/opt/veriftools/tla/CommunityModules-deps.jar"
 
 
+_tlc_seq = 0
+_tlc_lock = threading.Lock()
+
+
 def run_tlc(module, cfg, workers=None, simulate=None, depth=None, seed=None, timeout=1100,
             coverage=False, env=None, heap="8g", outfile=None, deadlock=False, extra=()):
     """Run TLC on spec/<module>.tla with spec/<cfg>. Returns dict(stdout_path, states, distinct, ok, ...).
     Output is streamed to a file (emission can be large)."""
     os.makedirs(os.path.join(OUT, "tlc"), exist_ok=True)
-    tag = "%s_%s_%d" % (module, os.path.basename(cfg).replace(".cfg", ""), os.getpid())
+    global _tlc_seq
+    with _tlc_lock:
+        _tlc_seq += 1
+        seq = _tlc_seq
+    tag = "%s_%s_%d_%d" % (module, os.path.basename(cfg).replace(".cfg", ""), os.getpid(), seq)
     meta = os.path.join(OUT, "tlc", "meta_" + tag)
     shutil.rmtree(meta, ignore_errors=True)
     outp = outfile or os.path.join(OUT, "tlc", tag + ".out")
